@@ -41,6 +41,9 @@ def cases(tier, seed):
                 if ut == "precinct" and (n == 3 or tier == "thorough"):
                     # two vote-count estimands with different swings in the same run: each must follow its own median
                     out.append({"combos": [[types[j] for j in c] for c in combos[i : i + 25]], "unit_type": ut, "limits": "wide", "estimands": ["dem", "turnout"]})
+                    if (i // 25) % 2 == 0:
+                        # the configuration points the 'dem' estimand at another baseline column (baseline_dem_pres)
+                        out.append({"combos": [[types[j] for j in c] for c in combos[i : i + 25]], "unit_type": ut, "limits": "wide", "estimands": ["dem", "turnout"], "pointer": True})
     return out
 
 
@@ -88,8 +91,14 @@ def evaluate(case):
         for j, (w, partial) in enumerate([(13, 0), (27, 3), (50, 500), (7, 1)]):
             uid = f"AAc{j % 2}_n{j}" if ut == "precinct" else f"AA9{j:02d}"
             units.append(E.make_unit(uid, "AA", f"AAc{j % 2}" if ut == "precinct" else uid, "u", None, (w // 3, w // 3, w - 1), (partial // 2, partial // 3, partial), 40.0 if partial else 0.0))
+        if case.get("pointer"):
+            for i, u in enumerate(units):
+                u["extra_baseline"] = {"baseline_dem_pres": u["b_dem"] + 2 + (i % 3)}
+            cov["baseline_pointer_runs"] += 1
         mp = {"turnout_factor_lower": 0.0, "turnout_factor_upper": 1000.0} if case["limits"] == "wide" else {}
         cfg = E.make_cfg(estimands=list(ests), alphas=[0.5], unit_type=ut, model_parameters=mp, aggregates=["postal_code", "unit"])
+        if case.get("pointer"):
+            cfg["baseline_pointer"] = {"dem": "dem_pres", "gop": "gop", "turnout": "turnout"}
         res = E.run_estimates(units, cfg)
         runs += 1
         cats = R.categorize(units, cfg)
@@ -102,8 +111,13 @@ def evaluate(case):
             continue
         rows = {r["geographic_unit_fips"]: r for r in E.tab_rows(res["ok"]["unit_data"])}
         m = None
+        def base(u, est):
+            if est == "dem" and case.get("pointer"):
+                return u["extra_baseline"]["baseline_dem_pres"]
+            return u[f"b_{est}"]
+
         for est in ests:
-            pairs = [(Fraction(u[f"r_{est}"] - (u[f"b_{est}"] + 1), u[f"b_{est}"] + 1), u[f"b_{est}"] + 1) for u in fit]
+            pairs = [(Fraction(u[f"r_{est}"] - (base(u, est) + 1), base(u, est) + 1), base(u, est) + 1) for u in fit]
             m = weighted_median(pairs)
             if m is None:
                 cov["nonunique_median_skipped"] += 1
@@ -115,7 +129,7 @@ def evaluate(case):
                 c = cats.get(u["id"])
                 if c is None or c["kind"] != "predict":
                     continue
-                w = u[f"b_{est}"] + 1
+                w = base(u, est) + 1
                 x = w * (1 + m)
                 got = rows[u["id"]][f"pred_{est}"]
                 partial = u[f"r_{est}"]
@@ -140,4 +154,4 @@ def evaluate(case):
     return {"violations": V, "cov": dict(cov), "outcome": sha(outs)[:16], "nontrivial": nontrivial, "transitions": runs}
 
 
-REQUIRED_COUNTERS = {"predictions_checked": 1000, "weighted_differs_from_unweighted": 50, "floor_binds": 100, "negative_swing": 100, "reporting_unit_excluded_from_fit": 20, "two_estimand_medians": 200}
+REQUIRED_COUNTERS = {"predictions_checked": 1000, "weighted_differs_from_unweighted": 50, "floor_binds": 100, "negative_swing": 100, "reporting_unit_excluded_from_fit": 20, "two_estimand_medians": 200, "baseline_pointer_runs": 50}
